@@ -525,7 +525,7 @@ def gen_sweep_plan(run_seed: int, k: int) -> dict:
     else:
         name, g = "R0", pool.random_grammar(random.Random(common.derive_seed("C15-rg", k % 16, (k // 16) // 4, 0)))
     calls = [c for c in g["calls"] if len(c[1]) <= 48] or g["calls"][:2]
-    flavour = rng.choices(("cold", "warm", "history"), (5, 3, 2))[0]
+    flavour = rng.choices(("cold", "warm", "history", "abort", "exhaust"), (5, 3, 2, 2, 1 if g.get("deep") else 0))[0]
     if flavour == "history":
         # HISTORY sweep: no threads.  For every pool call c_i: a fresh object, c_i as the FIRST
         # call ever made with it, then every pool call c_j -- all ordered pairs (first call on
@@ -545,7 +545,10 @@ def gen_sweep_plan(run_seed: int, k: int) -> dict:
             "pairs": [], "calls": hist_calls, "flavour": flavour,
         }
     pairs = []
-    for c1 in rng.sample(calls, min(len(calls), 6 if flavour == "cold" else 1)):
+    if flavour == "exhaust":
+        # c1 is a deeply nested input of a recursive rule: the sweep is over the head-room
+        calls = [tuple(c) for c in g["deep"]] + calls
+    for c1 in ([calls[rng.randrange(len(g["deep"]))]] if flavour == "exhaust" else rng.sample(calls, min(len(calls), 6 if flavour == "cold" else 2 if flavour == "abort" else 1))):
         r = rng.random()
         if r < 0.4:
             c2 = c1
@@ -615,9 +618,9 @@ def sweep_phases(plan):
             if not ks:
                 continue
             setup, target = fresh()
-            if flavour == "warm":
+            if flavour in ("warm", "abort", "exhaust"):
                 # a replay of single steps still has to build its object and use it once
-                setup = setup + [parse(target, c1), parse(target, c2)]
+                setup = setup + ([parse(target, c1)] if flavour != "exhaust" else []) + [parse(target, c2)]
             first_setup = setup
         else:
             # probe: c1 cold, c1 warm, c2 warm -- one client, traced, line logs kept
@@ -639,11 +642,25 @@ def sweep_phases(plan):
                 if not ks:
                     ks = list(range(1, len(cold) + 1))
                     cap = 12
+            elif flavour == "exhaust":
+                ks = list(range(8, 236, 3))  # frames of head-room left to the descent
+                cap = max(cap, 40)
             else:
                 ks = list(range(1, len(warm) + 1))
             if len(ks) > cap:
                 ks = ks[:: -(-len(ks) // cap)]
             first_setup = None
+        if flavour in ("abort", "exhaust"):
+            # FAULT sweep, one client: c1 is aborted at step k (abort) or runs out of frames with k
+            # of them left (exhaust); then c2 and c1 again on the same object.  An abort at every
+            # step reaches every place where something is set and not yet unset.
+            for n, k in enumerate(ks):
+                setup = first_setup if (n == 0 and first_setup is not None) else []
+                a = parse(target, c1, f"w{j}_{k}.c0.0")
+                fault = {"kind": "abort", "client": 0, "oid": a["oid"], "offset": k} if flavour == "abort" else {"kind": "exhaust", "client": 0, "oid": a["oid"], "headroom": k}
+                yield {"setup": number(setup, f"w{j}_{k}"), "clients": [[a, parse(target, c2, f"w{j}_{k}.c0.1"), parse(target, c1, f"w{j}_{k}.c0.2")]],
+                       "schedule": {"first": 0, "traced": True, "yields": []}, "faults": [fault], "sweep_k": k, "flavour": flavour}
+            continue
         for n, k in enumerate(ks):
             if flavour == "cold":
                 setup, target = (first_setup, target) if (n == 0 and first_setup is not None) else fresh()
@@ -1290,6 +1307,8 @@ def sweep_stats(plan, run, viols, checked):
         "sweep_rounds": len(sw),
         "sweep_rounds_cold": sum(1 for x in sw if x[1] == "cold"),
         "sweep_history_first_calls": sum(1 for x in sw if x[1] == "history"),
+        "sweep_rounds_with_a_fault": sum(1 for x in sw if x[1] in ("abort", "exhaust")),
+        "faults_fired": {kk: sum(1 for f in run["fired"] if f["kind"] == kk) for kk in {f["kind"] for f in run["fired"]}},
         "sweep_rounds_with_the_planned_switch": sum(1 for x in sw if x[2]),
         "runs_by_policy": {"sweep": 1},
         "runs_fault_free": 1,
@@ -1717,6 +1736,11 @@ class Check:
                 if plan.get("only") is not None:
                     return f"history sweep over {plan['g']} ({o}, {plan['mode']}): " + "; ".join(f"fresh object, parse({cs[i][0]!r}, {cs[i][1][:40]!r}) first, then parse({cs[j][0]!r}, {cs[j][1][:40]!r})" for i, j in plan["only"][:4])
                 return f"history sweep over {plan['g']} ({o}, {plan['mode']}): for each of {len(cs)} pool calls a fresh object, that call first, then all {len(cs)} calls"
+            if plan["flavour"] in ("abort", "exhaust"):
+                what = "aborted at" if plan["flavour"] == "abort" else "run with only this many frames left:"
+                pairs = [(j, pr) for j, pr in enumerate(plan["pairs"]) if plan.get("only") is None or any(jj == j for jj, _ in plan["only"])]
+                return f"{plan['flavour']} sweep over {plan['g']} ({o}, {plan['mode']}), one warm object, one client: " + "; ".join(
+                    f"parse({c1[0]!r}, {c1[1][:40]!r}) {what} {('step(s) ' + str([k for jj, k in plan['only'] if jj == j])) if plan.get('only') is not None else 'every step / head-room'}, then parse({c2[0]!r}, {c2[1][:40]!r}) and the first call again" for j, (c1, c2) in pairs[:3])
             which = "every step only a cold call executes" if plan["flavour"] == "cold" else "every step"
             pairs = list(enumerate(plan["pairs"]))
             if plan.get("only") is not None:
@@ -1812,7 +1836,7 @@ class Check:
             "operation_status_counts": acc.get("op_status", {}),
             "runs_by_policy": acc.get("runs_by_policy", {}),
             "race_plans": {"runs": acc.get("race_runs", 0), "rounds": acc.get("race_rounds", 0), "rounds_with_a_mid_operation_switch": acc.get("race_rounds_with_a_mid_operation_switch", 0), "what": "30-85 short rounds per run: 6-14 with a fresh parser (+module), the rest re-using one; 2-3 clients parsing with the object at once, one or two pre-emptions per round"},
-            "sweep_plans": {"runs": acc.get("sweep_runs", 0), "rounds": acc.get("sweep_rounds", 0), "cold_rounds": acc.get("sweep_rounds_cold", 0), "history_sweep_first_calls": acc.get("sweep_history_first_calls", 0), "rounds_in_which_the_planned_switch_happened": acc.get("sweep_rounds_with_the_planned_switch", 0), "what": "per plan one (grammar, optimizer setting, interpreter|generated, call pair): client0's call pre-empted once, at every step that only a cold call executes (fresh object per round) or at every step (one warm object), by client1's call running to completion"},
+            "sweep_plans": {"runs": acc.get("sweep_runs", 0), "rounds": acc.get("sweep_rounds", 0), "cold_rounds": acc.get("sweep_rounds_cold", 0), "history_sweep_first_calls": acc.get("sweep_history_first_calls", 0), "fault_sweep_rounds": acc.get("sweep_rounds_with_a_fault", 0), "rounds_in_which_the_planned_switch_happened": acc.get("sweep_rounds_with_the_planned_switch", 0), "what": "per plan one (grammar, optimizer setting, interpreter|generated, call pair): client0's call pre-empted once, at every step that only a cold call executes (fresh object per round) or at every step (one warm object), by client1's call running to completion"},
             "runs_by_client_threads": acc.get("threads", {}),
             "simulated_time_scheduler_steps": steps,
             "context_switches": acc.get("switches", 0),
